@@ -833,13 +833,15 @@ class shimmed:
         # functools.lru_cache'd helpers of the modules under proof (tables of basis matrices, index lists): a table built while `np` is the shim holds proxy
         # arrays and would leak into later native runs (and a natively built one into the symbolic run). Cleared on the way in and on the way out.
         for m in modules:
-            for val in list(vars(m).values()):
+            for name, val in list(vars(m).items()):
                 cc = getattr(val, 'cache_clear', None)
                 if callable(cc):
                     try:
                         cc()
                     except Exception:
                         pass
+                elif isinstance(val, dict) and name.lower().endswith('_cache'):      # hand-made memo tables (e.g. sim/clifford.py)
+                    val.clear()
 
     def __enter__(self):
         shim = NPShim(self.dom)
